@@ -28,8 +28,15 @@ class SpartanProtocol(BaseGopherProtocol):
             return False
 
         # Three non-empty parts, with the third part being an integer >= 0.
+        # A host name never starts with a slash; a Gopher selector of this
+        # server does ("/a b 1", or a search "/find<TAB>top 10").
         parts = self.request.strip().split(" ")
-        return len(parts) == 3 and all(parts) and parts[2].isdigit()
+        return (
+            len(parts) == 3
+            and all(parts)
+            and parts[2].isdigit()
+            and not parts[0].startswith("/")
+        )
 
     def handle(self):
         host, path, content_length = self.request.strip().split(" ")
